@@ -187,5 +187,7 @@ func (checker *TimestampChecker) OnSuccess(t *ast.Task) error {
 }
 
 func (checker *TimestampChecker) timestampFilePath(t *ast.Task) string {
-	return filepath.Join(checker.tempDir, "timestamp", stateFilename(t.Task))
+	// Like the checksum file, keyed by the task's label if it has one: calls of a
+	// task that differ by the variables in its label are fingerprinted separately.
+	return filepath.Join(checker.tempDir, "timestamp", stateFilename(t.Name()))
 }
